@@ -577,7 +577,8 @@ def _verify_groups(slide, root, op_kind, target, stale, emit, stats):
         exp = _bbox([_api_box(m) for m in g.shapes])
         stats["checked"] += 1
         if got != exp:
-            if op_kind == "freeform" and node is target:
+            if op_kind == "freeform" and rel(node) in ("target", "ancestor"):
+                # one root cause: convert_to_shape never triggers the (upward) recalculation
                 key = "C17:freeform-in-group-no-recalc"
             else:
                 key = "C17:group-bbox:after=add_%s:group=%s" % (op_kind, rel(node))
@@ -595,6 +596,18 @@ def _verify_groups(slide, root, op_kind, target, stale, emit, stats):
                            "group at depth %d reports %r, leaf members span %r" % (node.depth, got, exp)))
 
 
+def _expand(ops):
+    """a 'group' op with odd aux is followed by a first member added into the new group (container
+    index 0 = the most recently created container)."""
+    for op in ops:
+        yield op
+        if op["k"] == "group" and op["aux"] & 1:
+            first = dict(op)
+            first["k"] = ["shape", "textbox", "connector", "picture"][(op["aux"] >> 1) % 4]
+            first["c"] = 0
+            yield first
+
+
 def run_group(case, emit):
     """case = {ops:[{k, c, x, y, w, h, aux, m?}, ...]} -> stats"""
     prs, slide = _new_slide()
@@ -602,7 +615,7 @@ def run_group(case, emit):
     containers = [(root, slide.shapes)]  # creation order; index 0 = the slide itself
     stale = set()
     stats = {"checked": 0, "skipped_empty": 0, "skipped_stale": 0, "max_depth": 0, "kinds": set(), "ops": 0}
-    for op in case["ops"]:
+    for op in _expand(case["ops"]):
         kind = op["k"]
         makes_group = kind in ("group", "group_of")
         eligible = [c for c in containers if not makes_group or c[0].depth < MAX_NEST]
@@ -658,6 +671,14 @@ def _strategies():
     move = st.tuples(st.integers(0, 3), st.sampled_from(["other", "other", "self", "abs"]), delta)
     pts = st.one_of(
         st.tuples(coord, coord, coord, coord),
+        st.tuples(coord, coord, coord, coord),
+        st.tuples(coord, coord, coord, coord),
+        st.tuples(coord, coord, coord, coord),
+        st.tuples(coord, coord, coord, coord),
+        st.tuples(coord, coord, coord, coord).map(lambda t: (min(t[0], t[2]), max(t[1], t[3]),
+                                                              max(t[0], t[2]), min(t[1], t[3]))),
+        st.tuples(coord, coord, coord, coord).map(lambda t: (max(t[0], t[2]), max(t[1], t[3]),
+                                                              min(t[0], t[2]), min(t[1], t[3]))),
         st.tuples(coord, coord).map(lambda t: (t[0], t[1], t[0], t[1])),  # degenerate: begin == end
         st.tuples(coord, coord, coord).map(lambda t: (t[0], t[1], t[0], t[2])),  # vertical line
         st.tuples(coord, coord, coord).map(lambda t: (t[0], t[1], t[2], t[1])),  # horizontal line
@@ -670,13 +691,18 @@ def _strategies():
     })
 
     sub = st.tuples(st.sampled_from(SUB_KINDS), coord, coord, size, size, st.integers(0, 15))
-    kinds = st.sampled_from(GROUP_KINDS + ["shape", "group", "group", "freeform", "connector"])
+    kinds = st.sampled_from(GROUP_KINDS + ["shape", "group", "group", "group", "freeform", "connector"])
     op = st.fixed_dictionaries({
-        "k": kinds, "c": st.integers(0, 5), "x": coord, "y": coord, "w": size, "h": size,
+        "k": kinds, "c": st.sampled_from([0, 0, 0, 0, 1, 1, 2, 3, 4, 5]), "x": coord, "y": coord, "w": size, "h": size,
         "aux": st.integers(0, 15),
         "m": st.lists(sub, min_size=1, max_size=3),
     }).map(lambda d: d if d["k"] == "group_of" else {k: v for k, v in d.items() if k != "m"})
-    grp = st.fixed_dictionaries({"ops": st.lists(op, min_size=1, max_size=14)})
+    first = op.filter(lambda d: d["k"] in ("group", "group_of"))
+    grp = st.fixed_dictionaries({"ops": st.one_of(
+        st.lists(op, min_size=1, max_size=14),
+        st.tuples(first, st.lists(op, min_size=1, max_size=13)).map(lambda t: [t[0]] + t[1]),
+        st.tuples(first, st.lists(op, min_size=1, max_size=13)).map(lambda t: [t[0]] + t[1]),
+    )})
 
     lim = 10 ** 6
     num = st.one_of(
@@ -710,11 +736,11 @@ def jobs(tier):
     t = tier == "thorough"
     js = []
     for i in range(16):
-        js.append({"kind": "cxn", "shard": i, "n": 4000 if t else 220})
+        js.append({"kind": "cxn", "shard": i, "n": 8000 if t else 400})
     for i in range(16):
-        js.append({"kind": "grp", "shard": i, "n": 3000 if t else 150})
+        js.append({"kind": "grp", "shard": i, "n": 4000 if t else 300})
     for i in range(16):
-        js.append({"kind": "ff", "shard": i, "n": 4000 if t else 220})
+        js.append({"kind": "ff", "shard": i, "n": 8000 if t else 400})
     return js
 
 
